@@ -2,7 +2,7 @@
 import itertools
 from xml.etree import ElementTree as ET
 
-from vlib import env, drive, gen, history, build as B, access
+from vlib import env, drive, gen, history, build as B, access, xmlcmp
 from vlib.access import call
 from vlib.findings import Collector, h64
 from vlib.step import Failure
@@ -68,7 +68,7 @@ def check(ro, where='ro'):
             mism('Story.slug', access._text(x, 'storySlug'), sv['slug'])
         if 'duration' in sv and not access.close(sv['duration'], access.x_duration(x)):
             mism('Story.duration', access.x_duration(x), sv['duration'])
-        if 'xml' in sv and sv['xml'] is not x:
+        if 'xml' in sv and (sv['xml'] is None or xmlcmp.canon(sv['xml']) != xmlcmp.canon(x)):
             mism('Story.xml', 'the story element', 'another element')
         xi = [c for c in x if c.tag == 'item']
         items = sv.get('items')
